@@ -6,6 +6,7 @@
 From Coq Require Import List NArith Bool Arith.
 From Storage Require Import Base.Bytes Db.RwLock Db.RwLockProofs Db.Content Db.Timeline Db.Snapshot Db.SnapshotProofs.
 From Storage Require Import Db.Reader Db.ReaderProofs Db.RestoreX Db.RestoreXProofs Db.RestoreJoin Db.RestoreJoinProofs.
+From Storage Require Import Db.SnapPath Db.SnapPathProofs.
 Import ListNotations.
 
 (* For every database state d0 and every history  pre ; snapshot (any of Snapshot, SnapshotInTx in
@@ -223,3 +224,79 @@ Theorem listeners_see_one_handle : forall (p : bool) (ths : list thread) (ls : l
     /\ (pc = TxInTx \/ pc = TxCommitted -> b = cur s /\ cur s <> None).
 Proof. exact listeners_see_one_handle_lemma. Qed.
 Print Assumptions listeners_see_one_handle.
+
+(* ---------------------------------------------------------------------------------------------
+   Snapshot PATHS (Db/SnapPath.v): Snapshot / SnapshotInTx expand the placeholders __DATE__,
+   __TIME__, __DB_DIR__, __DB_FILE__ and the bare DATE, TIME, DB_DIR, DB_FILE of the path they are
+   given ([expand]: the eight strings.ReplaceAll of the code, in its order; [TDefault]:
+   GetDefaultSnapshotPath) and return the expanded path.  The path is a NAME: it has no influence
+   on what the snapshot holds nor on the database.
+
+   Whatever the templates and the environment (date, time, location of the database file) of the
+   snapshots of a history, the database, the snapshot files, the ids and the listeners are those of
+   the history without paths - so every theorem above applies to histories with paths. *)
+Theorem snapshot_path_erasure : forall (caps : nat -> nat) (ops : list pop) (p : pdb),
+  px (prun caps p ops) = xrun caps (px p) (flat_map perase ops).
+Proof. exact prun_erase_lemma. Qed.
+Print Assumptions snapshot_path_erasure.
+
+Theorem snapshot_path_independent : forall (caps : nat -> nat) (ops1 ops2 : list pop) (p1 p2 : pdb),
+  px p1 = px p2 -> flat_map perase ops1 = flat_map perase ops2 ->
+  px (prun caps p1 ops1) = px (prun caps p2 ops2).
+Proof. exact path_independent_lemma. Qed.
+Print Assumptions snapshot_path_independent.
+
+(* One snapshot: the path returned is the expansion of the template; the file of THAT name holds
+   the committed content plus the markers of the id returned - whatever file had that name before;
+   the file of every other name is what it was (in particular the spelling of the template itself
+   is not created); the database state is that of the snapshot without a path. *)
+Theorem snapshot_written_at_returned_path : forall (caps : nat -> nat) (p : pdb) (e : penv) (t : ptemplate) (k : snap_kind),
+  pwf p ->
+  let d := base (px p) in
+  let id := fresh (uuids d) in
+  let path := actual_path e t in
+  let p' := fst (pstep caps p (PSnap e t false k)) in
+  snd (pstep caps p (PSnap e t false k)) = PoSnap path id
+  /\ file_at p' path = Some (mark id (live d))
+  /\ (forall n, n <> path -> file_at p' n = file_at p n)
+  /\ px p' = fst (xstep caps (px p) (XBase (OSnap k))).
+Proof. exact snapshot_path_lemma. Qed.
+Print Assumptions snapshot_written_at_returned_path.
+
+(* pre ; Snapshot(template) ; post - any operations that do not write the same name again: the
+   file at the returned path still is the snapshot (the committed content at snapshot time plus the
+   markers), it is the file restore_reproduces_snapshot speaks about, and restoring what is read
+   from the returned path reproduces the database as of the snapshot. *)
+Theorem returned_path_keeps_snapshot : forall (caps : nat -> nat) (p0 : pdb) (pre : list pop)
+    (e : penv) (t : ptemplate) (k : snap_kind) (post : list pop),
+  pwf p0 ->
+  let p1 := prun caps p0 pre in
+  let d1 := base (px p1) in
+  let id := fresh (uuids d1) in
+  let path := actual_path e t in
+  let p3 := prun caps (fst (pstep caps p1 (PSnap e t false k))) post in
+  forallb (fun o => negb (rewrites path o)) post = true ->
+  file_at p3 path = Some (mark id (live d1))
+  /\ nth_error (files (base (px p3))) (length (files d1)) = Some (mark id (live d1))
+  /\ forall c, file_at p3 path = Some c -> live (restore_step (base (px p3)) c) = mark id (live d1).
+Proof. exact returned_path_keeps_snapshot_lemma. Qed.
+Print Assumptions returned_path_keeps_snapshot.
+
+(* the invariant the two theorems assume holds in every reachable state *)
+Theorem snapshot_names_wf : forall (caps : nat -> nat) (ops : list pop), pwf (prun caps empty_pdb ops).
+Proof. intros caps ops. apply pwf_run. exact pwf_empty. Qed.
+Print Assumptions snapshot_names_wf.
+
+(* a snapshot whose file cannot be written fails and changes nothing *)
+Theorem snapshot_blocked_changes_nothing : forall (caps : nat -> nat) (p : pdb) (e : penv) (t : ptemplate) (k : snap_kind),
+  pstep caps p (PSnap e t true k) = (p, PoSnapFailed).
+Proof. exact snapshot_blocked_lemma. Qed.
+Print Assumptions snapshot_blocked_changes_nothing.
+
+(* a path in which none of DATE, TIME, DB_DIR, DB_FILE occurs is used as it is *)
+Theorem expand_plain : forall (e : penv) (p : str),
+  occursb k_date p = false -> occursb k_time p = false ->
+  occursb k_db_dir p = false -> occursb k_db_file p = false ->
+  expand e p = p.
+Proof. exact expand_plain_lemma. Qed.
+Print Assumptions expand_plain.
